@@ -1,4 +1,5 @@
 """C04 Risk gate (structural clauses only)."""
+import re
 from engine import analysis as A, fde
 from engine.model import op_place
 from .common import *
@@ -19,7 +20,7 @@ INFO = {
 RISK = "marginfi::state::marginfi_account::RiskEngine"
 
 
-def run(ctx):
+def _run(ctx):
     prog = ctx.prog
     gate = prog.find_fns({"name": "check_account_init_health", "crate": "marginfi"})
     if len(gate) != 1:
@@ -396,3 +397,78 @@ def _weight_table(ctx, cw):
             if emode:
                 ctx.inst("C04.R6", "cap-discount[%s]" % rq, (seen["discount"] > 0) == (rq == "Initial"), "collateral-cap discount consulted only for Initial", "consulted %d times" % seen["discount"], cw.loc(cw.raw["span"]))
     ctx.tables["asset_weight_table(sentinels bank ai=11 am=12, emode ai=101 am=102)"] = table
+
+
+def run(ctx):
+    from .kernels import check_kernels
+    try:
+        _run(ctx)
+    finally:
+        # numeric kernels this property's formulas rest on, pinned as canonical expression trees
+        check_kernels(ctx, "C04.K", ['calc_value'])
+
+
+def _reconcile_content(ctx):
+    """C04.R5 content of reconcile_emode_configs: every config handed in takes part in the intersection."""
+    prog = ctx.prog
+    fs = prog.find_fns({"name": "reconcile_emode_configs", "crate": "marginfi_type_crate"})
+    if len(fs) != 1:
+        ctx.missing("C04.R5", "reconcile_emode_configs")
+        return
+    f = fs[0]
+    nexts = [expr_tree(prog, f, c.args[0]) for c in f.calls() if c.callee and c.callee["name"] == "next"]
+    over_in = [t for t in nexts if re.search(r"(?<![\w.])p1(?![\w.])", t)]
+    ctx.inst("C04.R5", "reconcile/iterates-every-config", bool(over_in) and all(t in ("into_iter(p1)", "into_iter(into_iter(p1))", "p1") for t in over_in),
+             "the configs are consumed straight from the caller's iterator: no filter / skip / take adaptor drops a borrowed bank's (possibly empty) config", over_in, f.loc(f.raw["span"]))
+    merges = [c for c in f.calls() if c.closure and prog.fns.get(c.closure) is not None and prog.fns[c.closure].info.get("closure_of") == f.key]
+    margs = sorted(expr_tree(prog, f, c.args[1]) for c in merges if len(c.args) > 1)
+    ctx.inst("C04.R5", "reconcile/merges-every-config", margs == ["tuple{next(into_iter(into_iter(p1)))}", "tuple{next(into_iter(p1))}"],
+             "the merge step runs on the first and on every following config", margs, f.loc(f.raw["span"]))
+    # the keep test: count of appearances == number of configs, the latter starting at 1 and incremented once per further config
+    keep = []
+    for bi, bb in enumerate(f.blocks):
+        if bb["t"]["k"] == "switch":
+            c = switch_cond(prog, f, bi, "else")
+            m = re.fullmatch(r"eq\((.+),(.+)\)", c)
+            if m:
+                keep.append(sorted(split_call(c)[1]))
+    okk = any(a == sorted([a[0], a[1]]) and "phi(1|add(1,loop))" in a and any(x.endswith(".1.1") or x.endswith(".1") for x in a) for a in keep)
+    ctx.inst("C04.R5", "reconcile/keep-only-tags-in-every-config", okk, "an entry survives iff its appearance count equals the number of configs (1 + one per further config)", keep, f.loc(f.raw["span"]))
+    # the increment happens once per loop iteration, in the loop over the remaining configs
+    loop_next = [c.block for c in f.calls() if c.callee and c.callee["name"] == "next" and expr_tree(prog, f, c.args[0]) == "into_iter(into_iter(p1))"]
+    incs = []
+    for bi, bb in enumerate(f.blocks):
+        for s in bb["s"]:
+            v = s.get("v")
+            if v and v["r"] == "bin" and v["op"] in ("AddWithOverflow", "Add") and rvalue_tree(prog, f, v) == "add(1,phi(1|add(1,loop)))":
+                incs.append(bi)
+    oki = len(incs) == 1 and len(loop_next) == 1 and any(c.startswith("discr(next(into_iter(into_iter(p1))))") for c in dominating_conds(prog, f, incs[0]))
+    ctx.inst("C04.R5", "reconcile/config-count", oki, "num_configs is incremented exactly once for each config after the first", "increments at %s" % [f.bloc(b) for b in incs], f.loc(f.raw["span"]))
+    # merge closure: only empty entries are skipped; merged weights are the minimum
+    cl = [prog.fns[k] for k in sorted({c.closure for c in merges})]
+    okm = False
+    if len(cl) == 1:
+        g = cl[0]
+        sw = [switch_cond(prog, g, bi, "else") for bi, bb in enumerate(g.blocks) if bb["t"]["k"] == "switch"]
+        skip = [c for c in sw if not c.startswith("discr(") and "notin" not in c]
+        okm = skip == ["is_empty(next(into_iter(iter(p2.entries))))"]
+        ins = [c for c in g.calls() if c.callee and c.callee["name"] == "or_insert"]
+        okm = okm and len(ins) == 1 and expr_tree(prog, g, ins[0].args[1]) == "tuple{next(into_iter(iter(p2.entries))),1}"
+        inner = [h for h in prog.fns.values() if re.fullmatch(re.escape(g.key) + r"::\{closure#\d+\}", h.key)]
+        if len(inner) == 1:
+            h = inner[0]
+            conds = sorted(switch_cond(prog, h, bi, "else") for bi, bb in enumerate(h.blocks) if bb["t"]["k"] == "switch")
+            okm = okm and len(conds) == 2 and all(re.fullmatch(r"lt\(p1\.0\.asset_weight_(init|maint),phi\(.*p2\.0\.asset_weight_\1\)\)", c) for c in conds)
+        else:
+            okm = False
+    ctx.inst("C04.R5", "reconcile/merge-takes-minimum", okm, "only empty entries are skipped; a tag seen again keeps the smaller init and maint weight and its count grows by one", "", f.loc(f.raw["span"]))
+
+
+_run_c04 = run
+
+
+def run(ctx):
+    try:
+        _run_c04(ctx)
+    finally:
+        _reconcile_content(ctx)
